@@ -42,7 +42,7 @@ def _qt(g, name, shape, dtype, r, qmode=None):
 
 def fam_hostile(seed):
     r = rng_for("hostile", seed)
-    kind = int(r.integers(0, 18))
+    kind = int(r.integers(0, 19))
     g = G(r, "int8")
     sub = "?"
     if kind == 0:  # unary builtin on random rank / dtype
@@ -389,6 +389,25 @@ def fam_hostile(seed):
             g.act("o", (1, 2 * h, 2 * w, 8))
             g.net.add_o(BO.TRANSPOSE_CONV, ["oshape", "w", x], ["o"], "TransposeConvOptions", dict(padding=PAD_SAME, stride_w=bad, stride_h=int(r.choice([bad, 2]))), 3)
         outs = ["o"]
+    elif kind == 17:  # very deep operator chains (graph traversals are recursive; --recursion-limit defaults to 4000)
+        sub = "deep-chain"
+        n = int(r.choice([700, 1100, 1500, 2500]))
+        if r.integers(0, 2):
+            g.net.add_t("in", [1, 4], "float32")
+            g.net.inputs.append("in")
+            x = "in"
+            for i in range(n):
+                g.net.add_t("t%d" % i, [1, 4], "float32")
+                g.net.add_o(BO.ABS, [x], ["t%d" % i], "AbsOptions", {}, 1)
+                x = "t%d" % i
+        else:
+            x = g.input([1, 2, 2, 4])
+            X = g.T(x)
+            for i in range(n):
+                g.act("t%d" % i, (1, 2, 2, 4), X.scale[0], X.zp[0])
+                g.net.add_o(BO.ADD, [x, x], ["t%d" % i], "AddOptions", dict(fused_activation_function=0), 2)
+                x = "t%d" % i
+        outs = [x]
     else:  # custom operator + unsupported + supported sandwich
         sub = "custom-sandwich"
         x = g.input([1, 4, 4, 8])
